@@ -1,6 +1,7 @@
 import Mp.CueSteps
 import Mp.CueProofs
 import Mp.Tree
+import Mp.CueAstProofs
 /-! C13 — CueValidate accepts a key path iff the schema declares it: property theorems (proved in Mp.CueProofs). -/
 #print axioms Mp.fvp_snoc
 #print axioms Mp.validate_walk
@@ -17,3 +18,6 @@ import Mp.Tree
 #print axioms Mp.Tree.hasErrors_complete
 #print axioms Mp.Tree.hasErrors_eq_anyNode
 #print axioms Mp.Tree.ident_filter_not_consulted
+#print axioms Mp.validateKeys_acc_found
+#print axioms Mp.vParts_idents
+#print axioms Mp.vTop_key_path
